@@ -140,7 +140,7 @@ def run_job(ws, unit, job, tier):
     d = os.path.join(ws.dir, re.sub(r'\W+', '_', job['name'])); os.makedirs(d, exist_ok=True)
     a = os.path.join(d, 'a.gb'); b = os.path.join(d, 'b.gb')
     rec = {'job': job['name'], 'unit': unit['name'], 'entry': job['entry'], 'backend': None, 'solver_s': 0.0, 'obligations': [], 'status': None}
-    defs = ['-D' + x for x in job.get('defines', [])] + ['-DSTUB_' + x for x in unit.get('stubs', [])]
+    defs = ['-D' + x for x in job.get('defines', [])] + ['-DSTUB_' + x for x in unit.get('stubs', [])] + ['-DST_OBJECT_BITS=%d' % job.get('object_bits', 10)]
     rc, out, err, t = sh(['goto-cc', '--function', job['entry']] + defs + [u['path'], '-o', a], timeout=300)
     if rc != 0:
         rec['status'] = 'ERROR'; rec['detail'] = 'goto-cc: ' + (err or out)[-3000:]; return rec
